@@ -104,12 +104,12 @@ type Lib struct {
 	Globals []*Global
 	Lits    []Lit
 	// ParamLists: lambda parameter lists generated; the second set only under a non-empty environment.
-	ParamLists        [][]string
-	ParamListsNested  [][]string
-	MaxXArgs          int // max number of arguments of a call whose function is a lambda or a call
-	Probes            [][]func() b6.Expression
-	symbols           api.FunctionSymbols
-	byName            map[string]*Global
+	ParamLists       [][]string
+	ParamListsNested [][]string
+	MaxXArgs         int // max number of arguments of a call whose function is a lambda or a call
+	Probes           [][]func() b6.Expression
+	symbols          api.FunctionSymbols
+	byName           map[string]*Global
 }
 
 func (l *Lib) finish() *Lib {
@@ -192,11 +192,13 @@ func refApply(it *Interp, a []Val) (Val, error)  { return it.Apply(a[0].(FnV), [
 func refCompose(it *Interp, a []Val) (Val, error) {
 	return &Composed{F: a[0].(FnV), G: a[1].(FnV)}, nil
 }
-func refCall(it *Interp, a []Val) (Val, error) { return it.Apply(a[0].(FnV), a[1:]) }
+func refCall(it *Interp, a []Val) (Val, error) { return it.Apply(AsFn(a[0]), a[1:]) }
 func refMix3(it *Interp, a []Val) (Val, error) {
 	return IntV(100*int(a[0].(IntV)) + 10*int(a[1].(IntV)) + int(a[2].(IntV))), nil
 }
-func refFail(it *Interp, a []Val) (Val, error) { return nil, &RefError{Cat: "fail", Msg: "fail: always fails"} }
+func refFail(it *Interp, a []Val) (Val, error) {
+	return nil, &RefError{Cat: "fail", Msg: "fail: always fails"}
+}
 
 func intLit(i int) Lit {
 	return Lit{Kind: KInt, Label: fmt.Sprint(i), Expr: func() b6.Expression { return b6.NewIntExpression(i) }}
@@ -252,7 +254,7 @@ func IntLib() *Lib {
 		ParamLists:       defaultParamLists,
 		ParamListsNested: defaultParamListsNested,
 		MaxXArgs:         3,
-		Probes:           [][]func() b6.Expression{{intProbe(5), intProbe(6), intProbe(7)}},
+		Probes:           [][]func() b6.Expression{{intProbe(5), intProbe(6), intProbe(7), intProbe(8), intProbe(9), intProbe(3)}},
 	}).finish()
 }
 
@@ -273,6 +275,6 @@ func CoreLib() *Lib {
 		ParamLists:       [][]string{{}, {"a"}, {"a", "b"}},
 		ParamListsNested: [][]string{{"b"}},
 		MaxXArgs:         2,
-		Probes:           [][]func() b6.Expression{{intProbe(5), intProbe(6), intProbe(7)}},
+		Probes:           [][]func() b6.Expression{{intProbe(5), intProbe(6), intProbe(7), intProbe(8), intProbe(9), intProbe(3)}},
 	}).finish()
 }
